@@ -440,6 +440,9 @@ def field_matches(v, f):
         return False
 
 
+CBOR_FACTS = {}      # what the RFC 8949 decoder met in jaq's output (per worker process; summed by main)
+
+
 def independent(F, v, cls, written):
     """hand what jaq wrote to the independent reader of F; -> (consumer, issue or None)"""
     if F == "yaml":
@@ -447,6 +450,8 @@ def independent(F, v, cls, written):
     try:
         if F == "cbor":
             got, facts = cbor_decode(written)
+            for k, n in facts.items():
+                CBOR_FACTS[k] = CBOR_FACTS.get(k, 0) + n
             exp = v if cls == "in" else lossy(v)
             if cls == "in" or len(list(walk(got))) == len(list(walk(exp))):
                 if not same(exp, got):
@@ -571,9 +576,6 @@ def yaml_strings():
     for s in YAML_PHRASES:
         add(s)
     return out
-
-
-FRAGS = None
 
 
 def rand_string(rng, words, seps):
@@ -792,12 +794,6 @@ def cl():
     return par.client("verif", path=JAQMON) if JAQMON else par.client("verif")
 
 
-class Panic(Exception):
-    def __init__(self, info):
-        super().__init__(str(info))
-        self.info = info
-
-
 def short(msg, n=420):
     """error messages echo their input: keep head and tail (the reason is at the end)"""
     msg = msg if isinstance(msg, str) else show(msg, 1 << 30)
@@ -930,9 +926,10 @@ def measure(v):
             s += len(x.b)
             rank += 1 + sum(_rank(ch) for ch in x.b)
         elif isinstance(x, (int, Big)) and not isinstance(x, bool):
-            rank += min(abs(V.ival(x)), 10 ** 6)
+            i = V.ival(x)
+            rank += 4 * abs(i).bit_length() + (2 if i < 0 else 0) + (1 if isinstance(x, Big) else 0)
         elif not isinstance(x, (list, Obj)):
-            rank += 10
+            rank += 10 if (isinstance(x, float) and x in (0.0, 0.5, 1.0, -1.0)) or x is None or isinstance(x, bool) else 11
     return (n, s, rank)
 
 
@@ -1003,6 +1000,13 @@ def sub_candidates(F, v):
     elif isinstance(v, Str):
         for i in range(len(v.b)):
             yield Str(v.b[:i] + v.b[i + 1:], False)
+    elif isinstance(v, (int, Big)) and not isinstance(v, bool):
+        i = V.ival(v)
+        for y in (0, 1, -1, int(i / 2) if abs(i) < 2 ** 53 else (abs(i) >> 1) * (1 if i > 0 else -1), -i if i < 0 else None):
+            if y is not None and y != i:
+                yield y
+    elif isinstance(v, float) and v == v and v not in (0.0, 1.0, -1.0, 0.5):
+        yield from (0.5, 1.0, -1.0)
 
 
 def minimise(F, v, first_failing, budget=2500):
@@ -1060,6 +1064,8 @@ def canonical(F, what, v):
     for x in interesting:
         if not any(freeze(x) == freeze(y) for y in uniq):
             uniq.append(x)
+    if len(uniq) > 1 and any(x != S("") for x in uniq):
+        uniq = [x for x in uniq if x != S("")]      # an empty string next to the culprit is a placeholder too
     if len(uniq) == 1:
         x = uniq[0]
         if isinstance(x, Str) and x.text and valid_text(x):
@@ -1161,6 +1167,9 @@ def value_task(t):
             st["failures_dropped"] = st.get("failures_dropped", 0) + max(0, len(rest) - 12)
         st["failures"] = keep
     st["digests"] = list(st["digests"])
+    if F == "cbor":
+        st["cbor_facts"] = dict(CBOR_FACTS)
+        CBOR_FACTS.clear()
     return st
 
 
@@ -1241,6 +1250,18 @@ XML_ATTR_NAMES = ["b", "c", "id", "p:b", "q:c", "xml:lang", "xml:space", "_", "a
 XML_WS = [" ", "  ", "\n", "\n  ", "\t"]
 XML_INT = ["", " ", "<!ENTITY e \"v\">", "<!ENTITY e 'v'>", "\n<!ELEMENT a ANY>\n", "<!ATTLIST a b CDATA #IMPLIED>", "<!-- c -->",
            "<?pi x?>", "<!ENTITY e \"a&amp;b\">", "\n  <!ENTITY e \"v\">\n  <!ENTITY f 'w'>\n"]
+
+
+XML_FIXED = [
+    "<a/>", "<a></a>", "<a b=\"c\"/>", "<a b='c'/>", "<a b='\"'/>", "<a b=\"'\"/>", "<a b='\">'></a>", "<a b=\"&quot;\"/>",
+    "<a b='&apos;'/>", "<a b=\"x&#10;y\"/>", "<a  b = \"c\"  />", "<a b=\"c\" d=\"e\"/>", "<a>text</a>", "<a> </a>",
+    "<a>&amp;&lt;&gt;</a>", "<a><![CDATA[<&>]]></a>", "<a><![CDATA[]]></a>", "<a><!-- c --></a>", "<a><?pi x?></a>",
+    "<a><?pi?></a>", "<?xml version=\"1.0\"?><a/>", "<?xml version='1.0'?><a/>", "<?xml version=\"1.0\" encoding=\"UTF-8\"?><a/>",
+    "<?xml version=\"1.0\" standalone=\"yes\"?><a/>", "<!DOCTYPE a><a/>", "<!DOCTYPE a SYSTEM \"s\"><a/>",
+    "<!DOCTYPE a [<!ENTITY e \"v\">]><a>&e;</a>", "<!DOCTYPE a []><a/>", "<p:a xmlns:p=\"urn:p\"><p:b p:c=\"d\"/></p:a>",
+    "<a xmlns=\"urn:x\"/>", "<a><b/><c></c>t<d>u</d></a>", "<!-- c --><a/><!-- d -->", "<?pi x?><a/><?pi y?>",
+    "<a>\u00e9\U0001d11e</a>", "<\u00e9/>", "<a>\n  <b/>\n</a>\n", "\n<a/>", "<a\n/>", "<a></a >",
+]
 
 
 def gen_doc(rng):
@@ -1700,6 +1721,8 @@ def xml_task(t):
                                   "mutants_no_site": 0, "features": {}, "mutators": {}, "rejected_samples": []}}
     docs = []      # (bytes, origin, spec-or-None)
     if part == "gen":
+        if idx == 0:
+            docs += [(t.encode("utf-8"), "fixed", None) for t in XML_FIXED]
         for _ in range(n):
             d = gen_doc(rng)
             docs.append((render(d).encode("utf-8"), "generated", d))
@@ -1729,7 +1752,7 @@ def xml_task(t):
             try:
                 canon0 = dom_canon(doc)
             except Malformed:
-                st["xml"]["generator_not_wellformed" if origin == "generated" else "mutants_not_wellformed"] += 1
+                st["xml"]["generator_not_wellformed" if origin in ("generated", "fixed") else "mutants_not_wellformed"] += 1
                 continue
             good.append((doc, origin, spec, canon0))
             st["consumers"]["xml.dom.minidom(expat)"] = st["consumers"].get("xml.dom.minidom(expat)", 0) + 1
@@ -1824,6 +1847,8 @@ def xml_shrink_task(f):
         m = render(cur)
         key = "xml:roundtrip:doc:" + json.dumps(m)
         mdoc = m.encode("utf-8")
+    elif origin == "fixed":
+        key, mdoc = "xml:roundtrip:doc:" + json.dumps(doc.decode("utf-8")), doc
     elif origin.startswith("example:"):
         key, mdoc = "xml:roundtrip:" + origin, doc
     else:
@@ -1832,6 +1857,8 @@ def xml_shrink_task(f):
         key, mdoc = "xml:roundtrip:mutation:" + ops, doc
         text = open(os.path.join(build.REPO, "examples", name), encoding="utf-8").read()
         import random
+        if fails(text.encode("utf-8")):      # not the mutation: the example itself fails in this way
+            key, mdoc, ops = "xml:roundtrip:example:" + name, text.encode("utf-8"), ""
         if "+" in ops:
             for op in ops.split("+"):
                 for k in range(8):
@@ -2066,7 +2093,7 @@ def group_failures(fails, rng):
                 if cur is None or size < cur[0]:
                     xml_classes[f["code"]][f["doc"]] = (size, f)
                 continue
-            k = ("xml", f["code"], f["origin"])
+            k = ("xml", f["code"], f["origin"] + (f["doc"] if f["origin"] == "fixed" else ""))
         else:
             v = dec(f["value"])
             leaves = sorted({repr(freeze(x)) for x in walk(v) if not isinstance(x, (list, Obj)) and x != 0 and x != S("k") and x != S("a")})
@@ -2143,18 +2170,18 @@ def main():
     quick = run.tier == "quick"
     tasks = []
     nparts = {"yaml": 32, "cbor": 4, "toml": 4, "csv": 4, "tsv": 4}
-    nrand = {"yaml": run.size(8000, 400000), "cbor": run.size(8000, 300000), "toml": run.size(6000, 250000),
-             "csv": run.size(5000, 200000), "tsv": run.size(5000, 200000)}
+    nrand = {"yaml": run.size(8000, 300000), "cbor": run.size(8000, 300000), "toml": run.size(6000, 200000),
+             "csv": run.size(5000, 150000), "tsv": run.size(5000, 150000)}
     for F in VALUE_FORMATS:
         for i in range(nparts[F]):
             tasks.append((F, "pool", i, run.seed, 0, nparts[F]))
         chunk = 1000 if quick else 5000
         for i in range((nrand[F] + chunk - 1) // chunk):
             tasks.append((F, "rand", i, run.seed, chunk, 0))
-    nxml = run.size(2000, 60000)
+    nxml = run.size(2000, 40000)
     for i in range((nxml + 249) // 250):
         tasks.append(("xml", "gen", i, run.seed, 250, 0))
-    nmut = run.size(300, 6000)
+    nmut = run.size(300, 3000)
     for i in range((nmut + 59) // 60):
         tasks.append(("xml", "mut", i, run.seed, 60, 0))
     # ---- the real CLI on a seeded sample (same pools and generators), in the same parallel pass
@@ -2186,6 +2213,7 @@ def main():
     samples = Samples(10, run.rng("samples"))
     xml_obs = {}
     cli = {}
+    cbor_facts = {}
     for st in par.pmap(dispatch, tasks, run.jobs):
         F = st["format"]
         if "cli_values" in st:
@@ -2227,6 +2255,8 @@ def main():
                     xml_obs.setdefault(k, [])
                     xml_obs[k] = (xml_obs[k] + x)[:3]
         fails += st["failures"]
+        for k, n in st.get("cbor_facts", {}).items():
+            cbor_facts[k] = cbor_facts.get(k, 0) + n
         dropped += st.get("failures_dropped", 0)
         for cls in st["inconc"]:
             run.inconc(cls)
@@ -2283,6 +2313,7 @@ def main():
         "samples": samples.items,
         "per_format": per,
         "xml_observations": xml_obs,
+        "cbor_items_met_by_the_rfc8949_decoder": cbor_facts,
         "cli": cli,
         "yaml_indentation_options": opt,
         "consumers_exercised": consumers,
